@@ -21,6 +21,7 @@ LEVEL_TEXT = ("All pairs (one broadcast call per operator) and all triples (bool
               "degree stress tie-breaking inside a grade; maximum/minimum must return the reference's larger/smaller operand.")
 EXHAUSTIVE_PARTS = ("quick: universe U2 = all polynomials over q0,q1 with monomials of degree <= 2, coefficients in "
                     "{-1,0,1}, support <= 3 (233 polynomials): all 233**2 pairs x 6 operators x 4 settings, all triples; "
+                    "plus the sub-universes without constant term / degree 2 only / linear only (coefficients -1,1,2); "
                     "thorough: additionally U3 over q0,q1,q2 (coefficients {-1,1}, support <= 3, degree <= 2; 1161 polynomials)")
 RULE = (
     "(1) bounded-exhaustive: U[:,None] op U[None,:] for op in < <= > >= == != (operator spelling; numpy.less... "
@@ -98,6 +99,12 @@ def coef_tensor(poly, names, monos):
 def enumerate_cases(tier):
     for g, r in SETTINGS:
         yield {"universe": "U2", "graded": g, "reverse": r, "rows": None}
+        # the same universe restricted to monomial subsets, so that the aligned term set of a
+        # comparison lacks the constant term / the low grades (the walk over the aligned terms
+        # starts somewhere else then)
+        yield {"universe": "U2-nonconstant", "graded": g, "reverse": r, "rows": None}
+        yield {"universe": "U2-degree2", "graded": g, "reverse": r, "rows": None}
+        yield {"universe": "U2-linear", "graded": g, "reverse": r, "rows": None}
     if tier == "thorough":
         for g, r in SETTINGS:
             for lo in range(0, 1161, 150):
@@ -111,6 +118,15 @@ def get_universe(name):
     if name not in _UCACHE:
         if name == "U2":
             _UCACHE[name] = universe(2, (-1, 1))
+        elif name.startswith("U2-"):
+            names, monos, C = universe(2, (-1, 1, 2), support=3)
+            keep = {"nonconstant": [i for i, m in enumerate(monos) if sum(m) > 0],
+                    "degree2": [i for i, m in enumerate(monos) if sum(m) == 2],
+                    "linear": [i for i, m in enumerate(monos) if sum(m) == 1]}[name[3:]]
+            drop = [i for i in range(len(monos)) if i not in keep]
+            rows = C[(C[:, drop] == 0).all(axis=1)][:, keep]
+            rows = numpy.unique(rows, axis=0)
+            _UCACHE[name] = (names, [monos[i] for i in keep], rows)
         else:
             _UCACHE[name] = universe(3, (-1, 1))
     return _UCACHE[name]
@@ -235,7 +251,17 @@ def random_case(draw):
                                st.sampled_from([0, 4, -4, 2, 6, -2]), min_size=size, max_size=size))
             terms.append([row, cs])
         ops.append({"names": names, "shape": list(shp), "kind": kind, "terms": terms, "retain": False})
-    if draw(st.booleans()):
+    mode = draw(st.sampled_from(["two", "two", "one", "free"]))
+    if mode == "one" and rows:
+        # second operand differs from the first at exactly ONE monomial (any, also the lowest):
+        # every position of the walk over the aligned terms gets to decide a verdict
+        size0 = gen.size_of(tuple(ops[0]["shape"]))
+        terms = [[list(t[0]), list(t[1])] for t in ops[0]["terms"]]
+        for e in range(size0):
+            i = draw(st.integers(0, len(rows) - 1))
+            terms[i][1][e] += draw(st.sampled_from([1, -1])) * (1 if kind == "i" else 4)
+        ops[1] = {"names": names, "shape": list(ops[0]["shape"]), "kind": kind, "terms": terms, "retain": False}
+    elif mode == "two":
         # second operand = first one changed at exactly two monomials of one grade, so the
         # verdict hinges on the relative order of two same-grade monomials
         bygrade = {}
